@@ -519,6 +519,87 @@ func TestVerifC10(t *testing.T) {
 		out.Emit(vharness.Case{Kind: "workload", Coq: coq, Key: coq, Nontrivial: total > len(ops), OracleOK: okAll, Note: noteAll, Sig: sigAll,
 			Replay: map[string]any{"workload": wl, "window": W, "ops": opsCoq, "mutations": total}})
 	}
+	// ---- first use: the writes of the very first operations on a store (account keys, the keys of a
+	// group on its first use, the own chain key, the first seal) are crash points too.  After a stop at
+	// any of them the store must start again and be usable: the member/device of the group can be
+	// obtained (twice, the same), an envelope can be sealed, and keys that had been written before the
+	// stop are the ones in use afterwards.  Decided by this oracle alone (the key-value model of C10
+	// starts after the first use).
+	nFirst := vharness.Budget(6, 90)
+	for fi := 0; fi < nFirst; fi++ {
+		kind := fi % 3
+		acc := vNewAccount(t)
+		imported := fi%2 == 0
+		rec := c10newDS()
+		mk := func(ds datastore.Datastore) *secretStore {
+			s, err := newSecretStore(ds, &NewSecretStoreOptions{PreComputedKeysCount: 2, PrecomputeOutOfStoreGroupRefsCount: 2})
+			if err != nil {
+				t.Fatal(err)
+			}
+			return s
+		}
+		r := mk(rec)
+		if imported {
+			if err := r.ImportAccountKeys(acc.sk, acc.proofSK); err != nil {
+				t.Fatal(err)
+			}
+		}
+		g := vGroup(t, kind, r) // first use of the account keys when they were not imported
+		md0, err := r.GetOwnMemberDeviceForGroup(g)
+		if err != nil {
+			t.Fatal(err)
+		}
+		if err := r.PutGroup(ctx, g); err != nil {
+			t.Fatal(err)
+		}
+		if _, err := r.SealEnvelope(ctx, g, vPayload(1, 4)); err != nil {
+			t.Fatal(err)
+		}
+		accA, accP, _ := r.ExportAccountKeysForBackup()
+		total := len(rec.log)
+		ok, note := true, ""
+		for cp := 0; cp <= total && ok; cp++ {
+			s := mk(c10replay(rec.log, cp))
+			gg := g
+			if kind != 0 {
+				// account and contact groups are derived from the account keys: derive them again
+				// (a store that lost its not-yet-complete account keys makes new ones; that is a new account)
+				gg = vGroup(t, kind, s)
+			}
+			md1, err := s.GetOwnMemberDeviceForGroup(gg)
+			if err != nil {
+				ok, note = false, fmt.Sprintf("first use of a group of kind %d (account keys imported: %v), stop after write %d/%d: GetOwnMemberDeviceForGroup fails after restart: %v", kind, imported, cp, total, err)
+				break
+			}
+			md2, err := s.GetOwnMemberDeviceForGroup(gg)
+			if err != nil || !md2.Device().Equals(md1.Device()) || !md2.Member().Equals(md1.Member()) {
+				ok, note = false, fmt.Sprintf("first use of a group of kind %d, stop after write %d/%d: two calls after restart give two identities (%v)", kind, cp, total, err)
+				break
+			}
+			if err := s.PutGroup(ctx, gg); err != nil {
+				ok, note = false, fmt.Sprintf("first use of a group of kind %d, stop after write %d/%d: PutGroup fails after restart: %v", kind, cp, total, err)
+				break
+			}
+			// what OpenGroup does before anything is sent in a group (orbitdb.go: "force secret generation
+			// if missing"): PutGroup alone does not complete a group record written without its chain key
+			if _, err := s.GetShareableChainKey(ctx, gg, md1.Member()); err != nil {
+				ok, note = false, fmt.Sprintf("first use of a group of kind %d, stop after write %d/%d: GetShareableChainKey (own chain key) fails after restart: %v", kind, cp, total, err)
+				break
+			}
+			if _, err := s.SealEnvelope(ctx, gg, vPayload(2, 4)); err != nil {
+				ok, note = false, fmt.Sprintf("first use of a group of kind %d, stop after write %d/%d: SealEnvelope fails after restart: %v", kind, cp, total, err)
+				break
+			}
+			if cp == total {
+				a2, p2, _ := s.ExportAccountKeysForBackup()
+				if !bytes.Equal(a2, accA) || !bytes.Equal(p2, accP) || !md1.Device().Equals(md0.Device()) || !md1.Member().Equals(md0.Member()) {
+					ok, note = false, fmt.Sprintf("first use of a group of kind %d: after a clean restart the account or the group identity differs", kind)
+				}
+			}
+		}
+		out.Emit(vharness.Case{Kind: "first-use", Key: fmt.Sprintf("first-use|%d", fi), Nontrivial: true, OracleOK: ok, Note: note,
+			Sig: "store unusable after a stop during the first use of a group", Replay: map[string]any{"kind": kind, "imported": imported, "writes": total}})
+	}
 	t.Logf("C10 harness: %d workloads, %d crash points", nWorkloads, totalCrash)
 }
 
